@@ -142,6 +142,9 @@ func VerifEngSemantics() {
 	obs("string.index", strings.Index(str, "llo")*100+strings.LastIndex("a.b.c", ".")*10+strings.Count("aXbXc", "X"))
 	obs("string.fields", strings.Join(strings.Split(" a  b ", " "), "|")+"/"+strings.TrimSpace("  x y\t\n")+"/"+strings.ToLower("AbÇ")+strings.Repeat("ab", k))
 	obs("string.invalid", len([]rune("a\xffb"))*10+len(string([]rune{0x1F600})))
+	symb := "a" + string([]byte{zzverif.ByteIn("b", "x$\xe2")}) + "\x82\xac"
+	obs("string.indexany.wide", strings.IndexAny(symb, "€$")*10+strings.IndexAny("p€q", "$€"))
+	obs("string.containsany.wide", strings.ContainsAny(symb, "£€"))
 	var sb strings.Builder
 	sb.WriteString("ab")
 	sb.WriteByte('c')
